@@ -1197,7 +1197,7 @@ def program(draw, cfg=None, ret=None, name="f", args=None, fns=None, params=()):
         isb = env[n1] == BOOL
 
         def rhs(prefer):
-            if g.chance(40):
+            if g.chance(25):
                 return ["v", prefer]
             e = g.gen_bool(max(0, depth - 1)) if isb else g.gen_int(max(0, depth - 1))
             if cval(e, env) is not NOC:
@@ -1207,6 +1207,14 @@ def program(draw, cfg=None, ret=None, name="f", args=None, fns=None, params=()):
             return ["bin", g.pick(["+", "^", "|", "&"]), ["v", prefer], e] if g.chance(50) else e
 
         e1, e2 = rhs(n2), rhs(n1)
+        if g.chance(50):
+            # both right-hand sides are expressions (no bare target) and the second reads the first target
+            ops_ = ["^", "&", "|"] if isb else ["+", "^", "|", "&"]
+            e1 = ["bin", g.pick(ops_), ["v", n1], ["v", n2]]
+            other = g.gen_bool(0) if isb else g.gen_int(0)
+            if cval(other, env) is not NOC:
+                other = ["v", n2]
+            e2 = ["bin", g.pick(ops_), ["v", n1], other]
         t1, t2 = _typeof(e1, env), _typeof(e2, env)
         env[n1], env[n2] = t1, t2
         g.pyint.discard(n1)
@@ -1218,7 +1226,7 @@ def program(draw, cfg=None, ret=None, name="f", args=None, fns=None, params=()):
         sc = scalars()
         if not sc:
             return None
-        if allow_multi and target is None and cfg.use_tuple and len(sc) >= 2 and g.chance(12):
+        if allow_multi and target is None and cfg.use_tuple and len(sc) >= 2 and g.chance(20):
             m_ = multi(depth)
             if m_:
                 return m_
